@@ -86,7 +86,8 @@ CHECKS = {
     'C07': dict(
         technique='TLA+ model (Scoping.tla Resolve + ShellStructure.tla) with C07Law as TLC invariant; exhaustive replay of '
                   'enumerated name-clash environments through Builder.build, comparing the bound declaration; TLC trace '
-                  'validation of every find_fqn call the builder makes',
+                  'validation of every find_fqn call the builder makes; shadowing shapes compiled against a type-distinct '
+                  'model header with static_asserts on the accessor types',
         text='ShellStructure.tla resolves the three referring sites (port type from the encapsulee scope, parameter type and '
              'claim-reply enum from the interface scope) with Resolve over the scope chain; TLC enumerates every subset of '
              '5 scopes declaring the name, a same-named declaration of another kind, 5 spellings and 3 referring scopes per '
@@ -150,7 +151,8 @@ CHECKS = {
     'C01': dict(
         technique='TLA+ behavioural model of the compiled shell (ShellRuntime.tla) with ExactlyOnce/ReplyCarried as TLC '
                   'invariants; TLC behaviours replayed on the real generated shell compiled against a mock Dezyne runtime; '
-                  'TLC trace validation (ShellRuntimeTrace.tla) of random command scripts on random models',
+                  'TLC trace validation (ShellRuntimeTrace.tla) of random command scripts on random models; the same shells '
+                  'driven under AddressSanitizer/UBSan',
         text='ShellRuntime.tla prescribes, per command, every observable of the compiled shell (which handler gets which '
              'event with which argument values in which context, queue, blocked callers, replies and out-argument values '
              'handed back) from the routing table; ShellRuntimeMC.tla explores all interleavings of calls, raises, component '
@@ -162,7 +164,8 @@ CHECKS = {
              'as a single translation unit (work-arounds for C06 known findings F and G).'),
     'C02': dict(
         technique='same model and machinery as C01, judged on execution context, queueing and blocking (ContextLaw, QueueLaw, '
-                  'BlockLaw as TLC invariants; accessor types as static_asserts generated from the routing table)',
+                  'BlockLaw as TLC invariants; accessor types as static_asserts generated from the routing table; '
+                  'AddressSanitizer/UBSan twins for the lifetime of deferred arguments)',
         text='MTS provides in-events must queue a closure and block the caller until the dispatcher step that runs it, with '
              'the handler executing on the dispatcher thread; MTS requires out-events must queue a copy and return at once; '
              'STS events run on the caller\'s thread and never touch the queue; Sts<I>/Mts<I> accessor types are checked at '
@@ -191,7 +194,8 @@ CHECKS = {
         note=BASE_TRUST + 'Trusted base as C01.'),
     'C10': dict(
         technique='ShellRuntime.tla Bind/Register/Final actions validated against the compiled shell with every single '
-                  'binding omission (TLC trace validation)',
+                  'binding omission (TLC trace validation), against the shipped rule and against the rule the property '
+                  'states (known finding R = the traces only the shipped rule explains)',
         text='All bound / exactly one required user binding missing (any port, direction, registered client) / one component '
              'handler missing / repeated final construction / registration after final construction: Ok, binding_error or '
              'runtime_error and the recorded parent must be what the model prescribes.',
